@@ -1,7 +1,7 @@
 ; SELECT text of one subquery (DESIGN.md Appendix B, clause order; C02/C04/C05):
 ;   SELECT list FROM src [WHERE p] [GROUP BY keys] [ORDER BY terms] [LIMIT n]
 ; (WS sd sv m source src op sort take o) is the builder content after writing the subquery onto o.
-(module-uses consts height spanof expr)
+(module-uses consts height spanof exprwf expr)
 
 ; a single name used as an expression (project column without "= expr")
 (define-fun WidentExpr ((sd (Array Str Bool)) (sv (Array Str Str)) (id Node) (o Out)) Out
@@ -102,7 +102,6 @@
     (ite ((_ is mk_TakeOperator) take) (W sd sv m (TakeOperator.RowCount take) (O+ o2 " LIMIT ")) o2))))
 
 ; ---- well-formedness of what splitQueries puts into a subquery (and the parser owes, Appendix D)
-(define-fun spanIn ((source Str) (x Node)) Bool (and (spanValid (SpanOf x)) (<= (Span.End (SpanOf x)) (Str.len source))))
 (declare-fun projColsWF (Seq_Node Int) Bool)
 (assert (forall ((l Seq_Node) (n Int)) (! (= (projColsWF l n) (ite (<= n 0) true (and (projColsWF l (- n 1))
    ((_ is mk_ProjectColumn) (Seq_Node.nth l (- n 1))) ((_ is mk_Ident) (ProjectColumn.Name (Seq_Node.nth l (- n 1))))
